@@ -1212,4 +1212,51 @@ Section Settle.
       + destruct H as (H1 & [H2|[H2|H2]] & _); subst ev; destruct Hst; congruence.
     - intros (sn & Hin). destruct (q1 s HI t sn Hin) as (A & B & _). subst sn. destruct Hst as [E|E]; rewrite E in B; discriminate.
   Qed.
+  (** labels of the environment: the operator's command, the worker's death, the watchdog *)
+  Definition external (l : label) : bool := match l with CmdIssue | Crash | WdFail _ => true | _ => false end.
+
+  Lemma remove1_head (p : Z * est) l : exists l', remove1 p (p :: l) = Some l'.
+  Proof. cbn. rewrite Z.eqb_refl. assert (est_eqb (snd p) (snd p) = true) as -> by (apply est_eqb_eq; reflexivity). cbn. eexists. reflexivity. Qed.
+
+  (** the engine never hangs with work in flight: in every state of the restricted system that is not quiet - or in
+      which a re-initialisation is due - a step of the engine itself is enabled (no help from the operator, the
+      watchdog or a crash is needed).  Together with [settled]: the engine can only stop in settled states. *)
+  Theorem engine_not_stuck s :
+    InvQ s -> quiet tasks s = false \/ ph s = PInit \/ ph s = PDown ->
+    exists l s', external l = false /\ stepq s l = Some s'.
+  Proof.
+    intros HI H.
+    destruct (evq s) as [|(t0, st) r] eqn:Eq.
+    2:{ exists (Deliver false). cbn. rewrite Eq.
+        destruct (tree s && parents_done deps (know s) t0); [|eexists; split; reflexivity].
+        match goal with |- context [match ?nx with _ => _ end] => destruct nx end;
+          [destruct (verdict_of tasks deps false (upd (know s) t0 st))|]; eexists; split; reflexivity. }
+    destruct (pushq s) as [|(t1, sn1) q] eqn:Ep.
+    2:{ exists (PushRun t1 sn1). cbn. rewrite Ep. destruct (remove1_head (t1, sn1) q) as (l' & ->). eexists. split; reflexivity. }
+    destruct (pend s) as [|(t2, sn2) p] eqn:Epd.
+    2:{ exists (Accept t2 sn2). cbn. rewrite Epd. destruct (remove1_head (t2, sn2) p) as (l' & El). rewrite El.
+        assert (Hin : In (t2, sn2) (pend s)) by (rewrite Epd; left; reflexivity).
+        rewrite (guard_of_q1 s t2 sn2 HI Hin). eexists. split; reflexivity. }
+    destruct H as [H|[H|H]].
+    - (* a registered run *)
+      unfold quiet in H. rewrite Eq, Epd, Ep in H.
+      assert (Hex : exists t, In t tasks /\ runs s t <> RNone).
+      { clear -H. induction tasks as [|x xs IH]; cbn in H; [discriminate|].
+        destruct (runs s x) eqn:E; cbn in H; try (exists x; split; [left; reflexivity|congruence]).
+        destruct (IH H) as (t & A & B). exists t. split; [right; exact A|exact B]. }
+      destruct Hex as (t & Hin & Hr). pose proof (q5 s HI t) as H5.
+      destruct (runs s t) as [|sn| | | |ev] eqn:Er; [congruence| | | | |].
+      + exists (StartWrite t). cbn. rewrite Er. destruct H5 as (_ & Hex & _).
+        destruct sn; cbn in Hex; try discriminate; eexists; split; reflexivity.
+      + exists (MainStart t). cbn. rewrite Er. eexists. split; reflexivity.
+      + exists (MainOk t). cbn. rewrite Er. eexists. split; reflexivity.
+      + exists (AfterOk t). cbn. rewrite Er. eexists. split; reflexivity.
+      + exists (Finish t). cbn. rewrite Er. eexists. split; reflexivity.
+    - exists (Rebuild false). cbn. rewrite H. eexists. split; reflexivity.
+    - destruct (ins s) eqn:Ei.
+      + exists (Rebuild false). cbn. rewrite H, Ei. eexists. split; reflexivity.
+      + exists RestartIdle. cbn. rewrite H, Ei. eexists. split; reflexivity.
+      + exists RestartIdle. cbn. rewrite H, Ei. eexists. split; reflexivity.
+      + exists RestartIdle. cbn. rewrite H, Ei. eexists. split; reflexivity.
+  Qed.
 End Settle.
